@@ -6,34 +6,35 @@ use crate::headers::{Header, MediaType};
 use crate::request::find;
 use crate::response::StatusCode;
 
+// All values of a field-less enum, INCLUDING variants added later: discriminants 0..variant_count.
+// (crate feature `variant_count` is switched on for cfg(kani) in the scratch copy only.)
 fn any_method() -> Method {
-    match kani::any::<u8>() % 3 {
-        0 => Method::Get,
-        1 => Method::Put,
-        _ => Method::Patch,
-    }
+    assert!(std::mem::size_of::<Method>() == 1);
+    let k: u8 = kani::any();
+    kani::assume((k as usize) < std::mem::variant_count::<Method>());
+    // SAFETY: Method is a field-less enum of size 1 with default discriminants 0..variant_count
+    unsafe { std::mem::transmute::<u8, Method>(k) }
 }
 
 fn any_version() -> Version {
-    if kani::any() { Version::Http10 } else { Version::Http11 }
+    assert!(std::mem::size_of::<Version>() == 1);
+    let k: u8 = kani::any();
+    kani::assume((k as usize) < std::mem::variant_count::<Version>());
+    // SAFETY: as above
+    unsafe { std::mem::transmute::<u8, Version>(k) }
 }
 
 fn any_status() -> StatusCode {
-    match kani::any::<u8>() % 11 {
-        0 => StatusCode::Continue,
-        1 => StatusCode::OK,
-        2 => StatusCode::NoContent,
-        3 => StatusCode::BadRequest,
-        4 => StatusCode::Unauthorized,
-        5 => StatusCode::NotFound,
-        6 => StatusCode::MethodNotAllowed,
-        7 => StatusCode::PayloadTooLarge,
-        8 => StatusCode::InternalServerError,
-        9 => StatusCode::NotImplemented,
-        _ => StatusCode::ServiceUnavailable,
-    }
+    assert!(std::mem::size_of::<StatusCode>() == 1);
+    let k: u8 = kani::any();
+    kani::assume((k as usize) < std::mem::variant_count::<StatusCode>());
+    // SAFETY: as above
+    unsafe { std::mem::transmute::<u8, StatusCode>(k) }
 }
 
+// documented numbers of the codes known when this harness was written; 0 = a code added later
+// (for which only "three digits, distinct from every other code" is checked)
+#[allow(unreachable_patterns)]
 fn status_number(s: StatusCode) -> u16 {
     match s {
         StatusCode::Continue => 100,
@@ -47,6 +48,7 @@ fn status_number(s: StatusCode) -> u16 {
         StatusCode::InternalServerError => 500,
         StatusCode::NotImplemented => 501,
         StatusCode::ServiceUnavailable => 503,
+        _ => 0,
     }
 }
 
@@ -113,13 +115,15 @@ fn version_try_from_exact() {
 fn method_roundtrip() {
     let m = any_method();
     let raw = m.raw();
+    #[allow(unreachable_patterns)]
     let expect: &[u8] = match m {
         Method::Get => &[71, 69, 84],
         Method::Put => &[80, 85, 84],
         Method::Patch => &[80, 65, 84, 67, 72],
+        _ => raw, // a method added later: only the round trip is checked
     };
     assert!(eq_bytes(raw, expect));
-    assert!(eq_bytes(m.to_str().as_bytes(), expect));
+    assert!(eq_bytes(m.to_str().as_bytes(), raw));
     assert!(Method::try_from(raw) == Ok(m));
 }
 
@@ -128,9 +132,11 @@ fn method_roundtrip() {
 fn version_roundtrip() {
     let v = any_version();
     let raw = v.raw();
+    #[allow(unreachable_patterns)]
     let expect: &[u8] = match v {
         Version::Http10 => &[72, 84, 84, 80, 47, 49, 46, 48],
         Version::Http11 => &[72, 84, 84, 80, 47, 49, 46, 49],
+        _ => raw,
     };
     assert!(eq_bytes(raw, expect));
     assert!(Version::try_from(raw) == Ok(v));
@@ -144,7 +150,7 @@ fn status_code_raw() {
     let ra = a.raw();
     assert!(ra[0].is_ascii_digit() && ra[1].is_ascii_digit() && ra[2].is_ascii_digit());
     let n = (ra[0] - b'0') as u16 * 100 + (ra[1] - b'0') as u16 * 10 + (ra[2] - b'0') as u16;
-    assert!(n == status_number(a));
+    assert!(status_number(a) == 0 || n == status_number(a));
     let rb = b.raw();
     if a != b {
         assert!(ra[0] != rb[0] || ra[1] != rb[1] || ra[2] != rb[2]);
@@ -243,3 +249,90 @@ fn find_first_match_4() {
     check_find(4);
 }
 
+
+// C05: byte-level composition of Response::write_all into a Vec<u8> sink, against an independent
+// serializer: 2 versions x 11 codes x {no body, body of 0..=3 symbolic bytes} x deprecation x encoding x
+// content type x Allow list of 0..=3 methods.  BOUNDED (bodies <= 3 bytes, Allow <= 3 entries).
+fn ref_serialize(v: Version, s: StatusCode, cl: Option<i32>, json: bool, depr: bool, enc: bool, allow: &[Method], body: &[u8], out: &mut Vec<u8>) {
+    out.extend_from_slice(v.raw());
+    out.push(b' ');
+    let n = status_number(s);
+    out.push(b'0' + (n / 100) as u8);
+    out.push(b'0' + (n / 10 % 10) as u8);
+    out.push(b'0' + (n % 10) as u8);
+    out.extend_from_slice(b" \r\nServer: Firecracker API\r\nConnection: keep-alive\r\n");
+    if !allow.is_empty() {
+        out.extend_from_slice(b"Allow: ");
+        let mut i = 0;
+        while i < allow.len() {
+            if i > 0 {
+                out.extend_from_slice(b", ");
+            }
+            out.extend_from_slice(allow[i].raw());
+            i += 1;
+        }
+        out.extend_from_slice(b"\r\n");
+    }
+    if depr {
+        out.extend_from_slice(b"Deprecation: true\r\n");
+    }
+    if let Some(n) = cl {
+        out.extend_from_slice(b"Content-Type: ");
+        out.extend_from_slice(if json { b"application/json" } else { b"text/plain" });
+        out.extend_from_slice(b"\r\nContent-Length: ");
+        // n is in 0..=9 in this harness
+        out.push(b'0' + n as u8);
+        out.extend_from_slice(b"\r\n");
+        if enc {
+            out.extend_from_slice(b"Accept-Encoding: identity\r\n");
+        }
+    }
+    out.extend_from_slice(b"\r\n");
+    out.extend_from_slice(body);
+}
+
+#[kani::proof]
+#[kani::unwind(16)]
+fn response_write_all() {
+    use crate::common::Body;
+    use crate::response::Response;
+    let v = any_version();
+    let s = any_status();
+    let mut r = Response::new(v, s);
+    let mut cl: Option<i32> = match s { StatusCode::Continue | StatusCode::NoContent => None, _ => Some(0) };
+    let bytes: [u8; 3] = kani::any();
+    let blen: usize = kani::any();
+    kani::assume(blen <= 3);
+    let has_body: bool = kani::any();
+    let mut body: &[u8] = &[];
+    if has_body {
+        body = &bytes[..blen];
+        r.set_body(Body::new(body.to_vec()));
+        cl = Some(blen as i32);
+    }
+    let json: bool = kani::any();
+    if !json {
+        r.set_content_type(MediaType::PlainText);
+    }
+    let depr: bool = kani::any();
+    if depr {
+        r.set_deprecation();
+    }
+    let enc: bool = kani::any();
+    if enc {
+        r.set_encoding();
+    }
+    let na: usize = kani::any();
+    kani::assume(na <= 3);
+    let ms = [any_method(), any_method(), any_method()];
+    let mut i = 0;
+    while i < na {
+        r.allow_method(ms[i]);
+        i += 1;
+    }
+    let mut out: Vec<u8> = Vec::new();
+    assert!(r.write_all(&mut out).is_ok());
+    let mut want: Vec<u8> = Vec::new();
+    ref_serialize(v, s, cl, json, depr, enc, &ms[..na], body, &mut want);
+    assert!(out == want);
+}
